@@ -6,6 +6,7 @@ import MuscleModel.Engines.Pulse
 import MuscleModel.Engines.Queue
 import MuscleModel.Engines.RWMutex
 import MuscleModel.Engines.Srv
+import MuscleModel.Engines.Str
 import MuscleModel.Engines.Tunnel
 import MuscleModel.Engines.Wildcard
 
@@ -29,6 +30,7 @@ def engines : List (String × Engine) := [
   ("q", QueueEngine.engine),
   ("rw", RWEngine.engine),
   ("srv", SrvEngine.engine),
+  ("str", StrEngine.engine),
   ("tun", TunEngine.engine),
   ("wc", WcEngine.engine)
 ]
